@@ -110,7 +110,8 @@ def _ob_fm(op):
             (c, mode, mid, kind, sub) = m
             return op in CLOSING_OPS and mode == 'Error' and mid == 1 and kind == 'Bank' and sub == 'Send'
         for m in ch.submsgs:
-            I.check('farm_manager_reply_modes', m[1] == 'Never' or is_refund(m))
+            # reply-never and reply-on-success cannot swallow a failure; reply-on-error / always is tolerated for the farm-closing refund only
+            I.check('farm_manager_reply_modes', m[1] in ('Never', 'Success') or is_refund(m))
         if hit_msg and not (hit_msg[0] is not None and is_refund(hit_msg[0])):
             I.cover('fault_hit')
             I.check('internal_failure_fails_the_whole_message', st != 'ok')
